@@ -4,3 +4,4 @@ import TsVerif.C04.Props
 #print axioms TsVerif.C04.symDiff_inside
 #print axioms TsVerif.C04.intersects_spec
 #print axioms TsVerif.C04.changed_sorted_bounded_partial
+#print axioms TsVerif.C04.override_span_witness
